@@ -13,7 +13,10 @@ META = dict(
           "of fix 64c96fe a cached lookup never returns another variable's slot, whatever arrangement the hint came from "
           "[hinted_answer_is_a_binding_of_the_name]. The unrestricted claim is FALSE and its negation is proved on concrete states "
           "[stale_hint_counterexample, stale_local_hint_counterexample]: a hint outlives its arrangement when a declaration made by eval() later shadows "
-          "the name (known finding STALE_LOOKUP_HINT); the model tags exactly the deviating lookups [tag_iff_deviation]. Deciding part on the real code: "
+          "the name (known finding STALE_LOOKUP_HINT); the model tags exactly the deviating lookups [tag_iff_deviation]; and for whole "
+          "evaluations (a ninth induction over the evaluator): any job from any state with any cache contents either has a tagged lookup or gives the "
+          "outcome and state (up to the cache) of the evaluation with the cache switched off, in which every lookup is `resolve` "
+          "[caches_invisible_unless_flagged, caches_invisible_observables, flagged_lookups_only_grow]. Deciding part on the real code: "
           "generated programs in which one function, lambda or loop body is evaluated several times under different arrangements (eval()-made "
           "declarations, slot shifts, recursion, shadowing by function names) are run on the real engine with hints on and off (hook H1) and on the Lean "
           "evaluator; hints-off must equal the specification run, hints-on must equal hints-off except where the model reproduces the engine and the "
